@@ -71,7 +71,7 @@ class RecordingCriteria:
         raise NotImplementedError
 
 
-def execute(spec: dict, chooser: Chooser, depth: int, policy: Policy | None = None, probe=None, setup=None, before_trial=None):
+def execute(spec: dict, chooser: Chooser, depth: int, policy: Policy | None = None, probe=None, setup=None, before_trial=None, between_runs=None):
     """Build the system, run ``depth`` steps (one trial per cycle) and return (system, trials).
 
     ``probe(system)`` is evaluated before and after every trial.  Exceptions raised inside a
@@ -108,8 +108,19 @@ def execute(spec: dict, chooser: Chooser, depth: int, policy: Policy | None = No
         cur = None
 
     _T = Trial
+
+    def steps():
+        """One run(depth), or two consecutive runs with a user action in between."""
+        if between_runs is None:
+            yield from mc.irun(depth)
+            return
+        k, action = between_runs
+        yield from mc.irun(k)
+        action(sysm)
+        yield from mc.irun(depth - k)
+
     try:
-        for step in mc.irun(depth):
+        for step in steps():
             chooser.mark()
             for name in step:
                 finish()
